@@ -608,6 +608,8 @@ class Sim:
         self.stats["q:" + op] += 1
         if a[0] == "raised":
             self.stats["raised:%s:%s" % (op, a[1])] += 1
+        elif a[1] is None:
+            self.stats["none:" + op] += 1  # an answer that says nothing (reach probe: should stay at zero)
         if mask[:4] != "0000" or mask[4] == "c":
             self.stats["checked_with_memo"] += 1
         if self.armed[hi]:
